@@ -681,3 +681,84 @@ theorem C_insert_nogroup (m : Mem) (bk bl0 fa cell bu bua be bea : Nat) (us es :
   rw [this]; exact hE j hj'
 
 end LeafKf
+
+namespace LeafKf.Example
+
+/-! A concrete caller's memory that meets every hypothesis of `C_insert_nogroup` (the premises are satisfiable, and by more than
+    the empty object): a destination without groups, a base with one entry in group `A`, an override with a group-less entry
+    (value, comment behind the value), a second definition of the same key, and an entry of another group without value. -/
+
+def str (s : List UInt8) : Block := { cells := (s ++ [0]).map some }
+
+def us : List Econf.Entry := [{ group := [65], key := [107], value := some [49], cb := none, ca := none, line := 1, quotes := false }]
+def es : List Econf.Entry := [
+  { group := Econf.NONE, key := [120], value := some [50], cb := none, ca := some [99], line := 2, quotes := true },
+  { group := Econf.NONE, key := [120], value := some [51], cb := none, ca := none, line := 3, quotes := false },
+  { group := [66], key := [121], value := none, cb := none, ca := none, line := 5, quotes := false }]
+
+def kfSlots (arr : Val) (n : Int) (groups : Val) (ng : Int) : List Val :=
+  [arr, .int n, .int n, .int 61, .int 35, .int 0, .null, .int 0, .int 0, .null, .int 0, .null, .int 0, groups, .int ng, .null]
+
+def mem : Mem := [
+  /- 0 destination -/ { cells := [], slots := kfSlots .null 0 (.ptr 1 0) 0 },
+  /- 1 its group array -/ { cells := [], slots := [.null] },
+  /- 2 the cell `*fe` -/ { cells := [], slots := [.ptr 3 0] },
+  /- 3 the new array, room for 3 -/ { cells := [], slots := List.replicate 21 .undef },
+  /- 4 base -/ { cells := [], slots := kfSlots (.ptr 5 0) 1 .null 0 },
+  /- 5 its entries -/ { cells := [], slots := [.ptr 6 0, .ptr 7 0, .ptr 8 0, .null, .null, .int 1, .int 0] },
+  str [65], str [107], str [49],
+  /- 9 override -/ { cells := [], slots := kfSlots (.ptr 10 0) 3 .null 0 },
+  /- 10 its entries -/ { cells := [], slots := [.ptr 11 0, .ptr 12 0, .ptr 13 0, .null, .ptr 14 0, .int 2, .int 1,
+                                                 .ptr 15 0, .ptr 16 0, .ptr 17 0, .null, .null, .int 3, .int 0,
+                                                 .ptr 18 0, .ptr 19 0, .null, .null, .null, .int 5, .int 0] },
+  str Econf.NONE, str [120], str [50], str [99], str Econf.NONE, str [120], str [51], str [66], str [121]]
+
+theorem base_ok : KfMem mem 4 5 (entsOf us) :=
+  ⟨⟨_, rfl, rfl, rfl, rfl⟩, ⟨_, rfl, rfl, rfl, fun i hi => by
+    have : i = 0 := by simp [entsOf, us] at hi; omega
+    subst this
+    exact ⟨6, 7, rfl, rfl, rfl, rfl⟩⟩⟩
+
+theorem ent0 : EntMem mem 10 (7 * 0) es[0] [0, 1, 3] :=
+  ⟨by decide, ⟨11, rfl, rfl, by decide⟩, ⟨12, rfl, rfl, by decide⟩, ⟨.ptr 13 0, rfl, .some 13 _ rfl, fun b hb => by cases hb; decide⟩,
+    ⟨.null, rfl, .none, fun b hb => by cases hb⟩, ⟨.ptr 14 0, rfl, .some 14 _ rfl, fun b hb => by cases hb; decide⟩, rfl⟩
+
+theorem ent1 : EntMem mem 10 (7 * 1) es[1] [0, 1, 3] :=
+  ⟨by decide, ⟨15, rfl, rfl, by decide⟩, ⟨16, rfl, rfl, by decide⟩, ⟨.ptr 17 0, rfl, .some 17 _ rfl, fun b hb => by cases hb; decide⟩,
+    ⟨.null, rfl, .none, fun b hb => by cases hb⟩, ⟨.null, rfl, .none, fun b hb => by cases hb⟩, rfl⟩
+
+theorem ent2 : EntMem mem 10 (7 * 2) es[2] [0, 1, 3] :=
+  ⟨by decide, ⟨18, rfl, rfl, by decide⟩, ⟨19, rfl, rfl, by decide⟩, ⟨.null, rfl, .none, fun b hb => by cases hb⟩,
+    ⟨.null, rfl, .none, fun b hb => by cases hb⟩, ⟨.null, rfl, .none, fun b hb => by cases hb⟩, rfl⟩
+
+theorem override_ok : SrcMem mem 9 10 es [0, 1, 3] :=
+  ⟨⟨_, rfl, rfl, rfl, rfl⟩, by decide, ⟨_, rfl, rfl, rfl⟩, by decide, fun i hi => by
+    have : i = 0 ∨ i = 1 ∨ i = 2 := by simp [es] at hi; omega
+    rcases this with rfl | rfl | rfl
+    · exact ent0
+    · exact ent1
+    · exact ent2⟩
+
+theorem ctx_ok : NgCtx mem 0 1 3 2 9 10 es 0 3 :=
+  ⟨override_ok, ⟨_, rfl, rfl, rfl⟩, by decide, by decide, by decide, by decide, by decide, by decide, by decide, fun e he => by
+    simp [es] at he
+    rcases he with rfl | rfl | rfl <;> decide⟩
+
+theorem dest_ok : GlMem mem 0 1 [] := ⟨⟨_, rfl, rfl, rfl, rfl⟩, ⟨_, rfl, rfl, rfl, fun i hi => by simp at hi⟩⟩
+
+/-- what the model says for this pair: exactly the first group-less definition, its quote flag cleared -/
+theorem model_says : Econf.insertNoGroup us es = [{ group := Econf.NONE, key := [120], value := some [50], cb := none, ca := some [99], line := 2, quotes := false }] := by
+  decide
+
+/-- and so does the translated C function on this memory, by the general theorem -/
+theorem run : ∃ m' loc' bl' gl', exec 10 LeafFns.insert_nogroup.body
+      { mem := mem, loc := [.ptr 0 0, .ptr 2 0, .ptr 4 0, .ptr 9 0, .undef, .undef, .undef, .undef, .undef] } = .ret (.int 1) { mem := m', loc := loc' } ∧
+    GlMem m' 0 bl' gl' ∧ gl'.map (·.2) = [Econf.NONE] ∧
+    EntMem m' 3 0 { group := Econf.NONE, key := [120], value := some [50], cb := none, ca := some [99], line := 2, quotes := false } [0, bl'] := by
+  obtain ⟨m', loc', bl', gl', hex, hG, hn, hE, _, _⟩ :=
+    C_insert_nogroup mem 0 1 3 2 4 5 9 10 us es [] 3 base_ok (by decide) ctx_ok dest_ok
+      (fun blk hb => by cases hb; rfl) (by decide) (fun x hx => by cases hx) _ rfl rfl rfl rfl rfl 10 (by decide)
+  rw [model_says] at hex hn hE
+  exact ⟨m', loc', bl', gl', hex, hG, by simpa [Econf.addGroup] using hn, by simpa using hE 0 (by simp)⟩
+
+end LeafKf.Example
